@@ -6,6 +6,7 @@
 #include <stdio.h>
 #include <stdlib.h>
 #include <string.h>
+#include <errno.h>
 #define IDN2_SKIP_LIBIDN_COMPAT
 #include <idn2.h>
 #include "../core/prng.h"
@@ -169,6 +170,21 @@ void sim_ledger_retag (int from, int to)
         if (ltab[i].state == 1 && ltab[i].tag == from) ltab[i].tag = to;
 }
 
+void sim_ledger_forget (int tag)
+{
+    for (int i = 0; i < LSIZE; i++)
+        if (ltab[i].state == 1 && ltab[i].tag == tag) { ltab[i].state = 2; lfrees++; }
+}
+
+int g_sim_af_at, g_sim_af_n, g_sim_af_fired;
+static int alloc_fails (void)
+{
+    if (g_sim_tag == SIM_TAG_NONE || in_raw || g_sim_af_at <= 0) return 0;
+    if (++g_sim_af_n != g_sim_af_at) return 0;
+    g_sim_af_fired = 1; errno = ENOMEM;
+    return 1;
+}
+
 void sim_ledger_adopt (void *p, size_t n) { if (g_sim_tag != SIM_TAG_NONE) ladd (p, n, g_sim_tag); }
 
 void sim_fill (void *p, size_t n)
@@ -185,6 +201,7 @@ void sim_raw_free (void *p) { in_raw++; __real_free (p); in_raw--; }
 
 void *__wrap_malloc (size_t n)
 {
+    if (alloc_fails ()) return NULL;
     void *p = __real_malloc (n);
     if (p && g_sim_tag != SIM_TAG_NONE && !in_raw) { sim_fill (p, n); ladd (p, n, g_sim_tag); }
     return p;
@@ -192,6 +209,7 @@ void *__wrap_malloc (size_t n)
 
 void *__wrap_calloc (size_t a, size_t b)
 {
+    if (alloc_fails ()) return NULL;
     void *p = __real_calloc (a, b);
     if (p && g_sim_tag != SIM_TAG_NONE && !in_raw) ladd (p, a * b, g_sim_tag);
     return p;
@@ -210,6 +228,7 @@ void *__wrap_realloc (void *o, size_t n)
 
 char *__wrap_strndup (const char *s, size_t n)
 {
+    if (alloc_fails ()) return NULL;
     char *p = __real_strndup (s, n);
     if (p && g_sim_tag != SIM_TAG_NONE && !in_raw) ladd (p, strlen (p) + 1, g_sim_tag);
     return p;
@@ -217,6 +236,7 @@ char *__wrap_strndup (const char *s, size_t n)
 
 char *__wrap_strdup (const char *s)
 {
+    if (alloc_fails ()) return NULL;
     char *p = __real_strdup (s);
     if (p && g_sim_tag != SIM_TAG_NONE && !in_raw) ladd (p, strlen (p) + 1, g_sim_tag);
     return p;
